@@ -390,6 +390,10 @@ inline unsigned &case_cpu_budget() { static unsigned b = 30; return b; }
 
 // ---------------------------------------------------------------- phases
 typedef std::function<void(uint64_t, Rng &)> case_fn;
+// called at the start of every case with (phase, index): lets a harness put the process into a state that is a pure function
+// of the case address (rt/ambient.h uses it to swap the global locale), so that --replay reproduces it
+typedef void (*case_hook_fn)(const char *phase, uint64_t index);
+inline case_hook_fn &case_hook() { static case_hook_fn f = nullptr; return f; }
 
 inline void run_case(const char *name, uint64_t i, const case_fn &fn)
 {
@@ -403,6 +407,7 @@ inline void run_case(const char *name, uint64_t i, const case_fn &fn)
     cur_mark_here();
     watchdog_arm(case_cpu_budget());
     s.in_case = true;
+    if (case_hook()) case_hook()(name, i);
     try {
         fn(i, rng);
     } catch (const assertion_reached &a) {
